@@ -120,3 +120,182 @@ theorem sumShape_pull2 (R : GridRot) (a b : Nat) (hR : GridOk2 R a b) (F : List 
 end flip
 
 end Pm.C01
+
+namespace Pm.C01
+open Pm.C03
+
+section rotstats
+variable {α : Type} [Field α] [LinearOrder α] [IsStrictOrderedRing α]
+
+/-- pointwise operations commute with a grid rotation of fields -/
+theorem rotF_map2 {β γ δ : Type} (R : GridRot) (ms : List Nat) (op : β → γ → δ) (g : List Int → β) (w : List Int → γ) :
+    (fun x => op (rotF R ms g x) (rotF R ms w x)) = rotF R ms (fun x => op (g x) (w x)) := by
+  funext x; simp only [rotF]; split <;> rfl
+
+/-- summing a rotated field over the box = summing the field (3-D grid rotations) -/
+theorem sumShape_rot3 (R : GridRot) (a b c : Nat) (hR : GridOk3 R a b c) (Q : List Int → α) :
+    sumShape [a, b, c] (fun k => rotF R [a, b, c] Q (natsToInts k)) = sumShape [a, b, c] (fun k => Q (natsToInts k)) := by
+  rw [← sumShape_pull3 R a b c hR Q]
+  apply sumShape_congr
+  intro k hk
+  simp [rotF, natsToInts_length, inShape_length hk]
+
+theorem sumShape_rot2 (R : GridRot) (a b : Nat) (hR : GridOk2 R a b) (Q : List Int → α) :
+    sumShape [a, b] (fun k => rotF R [a, b] Q (natsToInts k)) = sumShape [a, b] (fun k => Q (natsToInts k)) := by
+  rw [← sumShape_pull2 R a b hR Q]
+  apply sumShape_congr
+  intro k hk
+  simp [rotF, natsToInts_length, inShape_length hk]
+
+end rotstats
+
+section idem
+variable {α : Type} [Field α] [LinearOrder α] [IsStrictOrderedRing α]
+
+/-- what a rotation of template fields has to provide for the statistics to be rotation invariant -/
+structure RotSum (ms : List Nat) (rot : (List Int → α) → (List Int → α)) : Prop where
+  sum : ∀ Q : List Int → α, sumShape ms (fun k => rot Q (natsToInts k)) = sumShape ms (fun k => Q (natsToInts k))
+  map2 : ∀ (op : α → α → α) (g w : List Int → α), (fun x => op (rot g x) (rot w x)) = rot (fun x => op (g x) (w x))
+
+theorem rotSum_grid3 (R : GridRot) (a b c : Nat) (hR : GridOk3 R a b c) : RotSum (α := α) [a, b, c] (rotF R [a, b, c]) :=
+  ⟨sumShape_rot3 R a b c hR, fun op g w => rotF_map2 R [a, b, c] op g w⟩
+theorem rotSum_grid2 (R : GridRot) (a b : Nat) (hR : GridOk2 R a b) : RotSum (α := α) [a, b] (rotF R [a, b]) :=
+  ⟨sumShape_rot2 R a b hR, fun op g w => rotF_map2 R [a, b] op g w⟩
+theorem rotSum_id (ms : List Nat) : RotSum (α := α) ms id := ⟨fun _ => rfl, fun _ _ _ => rfl⟩
+
+variable (sqrt : α → α) (eps : α)
+
+theorem maskSum_rot (ms : List Nat) (rot) (hr : RotSum (α := α) ms rot) (w : List Int → α) :
+    maskSum (ordOps sqrt eps) ms (rot w) = maskSum (ordOps sqrt eps) ms w := by
+  unfold maskSum; rw [boxSum_ord, boxSum_ord, hr.sum]
+
+/-- the template statistics do not change when template and mask are rotated together -/
+theorem normStats_rot (ms : List Nat) (rot) (hr : RotSum (α := α) ms rot) (g w : List Int → α) (n : α) :
+    normStats (ordOps sqrt eps) ms (rot g) (rot w) n = normStats (ordOps sqrt eps) ms g w n := by
+  unfold normStats
+  have e1 : (fun k => (ordOps sqrt eps).mul (rot g (natsToInts k)) (rot w (natsToInts k)))
+      = fun k => rot (fun x => (ordOps sqrt eps).mul (g x) (w x)) (natsToInts k) := by
+    funext k; exact congrFun (hr.map2 _ g w) _
+  have e2 : (fun k => (ordOps sqrt eps).mul ((ordOps sqrt eps).sq (rot g (natsToInts k))) (rot w (natsToInts k)))
+      = fun k => rot (fun x => (ordOps sqrt eps).mul ((ordOps sqrt eps).sq (g x)) (w x)) (natsToInts k) := by
+    funext k
+    exact congrFun (hr.map2 (fun a b => (ordOps sqrt eps).mul ((ordOps sqrt eps).sq a) b) g w) _
+  simp only [e1, e2, boxSum_ord, hr.sum]
+
+theorem normT_rot (ms : List Nat) (rot) (hr : RotSum (α := α) ms rot) (st : α × α) (g w : List Int → α) :
+    normT (ordOps sqrt eps) st (rot g) (rot w) = rot (normT (ordOps sqrt eps) st g w) :=
+  hr.map2 (normApply (ordOps sqrt eps) st) g w
+
+theorem sqrt_one (hs : SqrtOk sqrt) : sqrt 1 = 1 := by
+  have h1 := hs.sq 1 (by norm_num)
+  have h0 := hs.nonneg 1
+  nlinarith [sq_nonneg (sqrt 1 - 1), sq_nonneg (sqrt 1 + 1)]
+
+/-- **Standardising twice under a binary mask is standardising once.**  For a mask with `w² = w`, positive mass and a
+template that is not constant under it, the standardised template has mean 0 and standard deviation 1 under the
+mask, and standardising it again returns it unchanged. -/
+theorem normT_idempotent_binary (hs : SqrtOk sqrt) (ms : List Nat) (g w : List Int → α)
+    (hbin : ∀ x, w x * w x = w x)
+    (hn : 0 < sumShape ms (fun k => w (natsToInts k)))
+    (hvar : 0 < (Win.mk ms (fun k => w (natsToInts k)) (fun k => g (natsToInts k)) (fun k => g (natsToInts k))).B) :
+    let n := sumShape ms (fun k => w (natsToInts k))
+    let gh := normT (ordOps sqrt eps) (normStats (ordOps sqrt eps) ms g w n) g w
+    normStats (ordOps sqrt eps) ms gh w n = (0, 1) ∧ normT (ordOps sqrt eps) (0, 1) gh w = gh := by
+  intro n gh
+  set W : Win α := ⟨ms, fun k => w (natsToInts k), fun k => g (natsToInts k), fun k => g (natsToInts k)⟩ with hW
+  have hWn : W.n = n := rfl
+  have hnn : W.n ≠ 0 := ne_of_gt hn
+  have hw' : ∀ k, inShape W.ms k = true → 0 ≤ W.w k := by
+    intro k _
+    have := hbin (natsToInts k)
+    show 0 ≤ w (natsToInts k)
+    rw [← this]; exact mul_self_nonneg _
+  have hB0 : 0 ≤ W.B := sumShape_nonneg _ _ (fun k hk => mul_nonneg (hw' k hk) (mul_self_nonneg _))
+  have hBn : 0 ≤ W.B / W.n := div_nonneg hB0 (le_of_lt hn)
+  -- statistics of g
+  have e_gw : boxSum (ordOps sqrt eps) ms (fun k => (ordOps sqrt eps).mul (g (natsToInts k)) (w (natsToInts k)))
+      = sumShape ms (fun k => W.w k * W.h k) := by
+    rw [boxSum_ord]; apply sumShape_congr; intro k _; simp [ordOps, W]; ring
+  have e_g2w : boxSum (ordOps sqrt eps) ms
+      (fun k => (ordOps sqrt eps).mul ((ordOps sqrt eps).sq (g (natsToInts k))) (w (natsToInts k)))
+      = sumShape ms (fun k => W.w k * (W.h k * W.h k)) := by
+    rw [boxSum_ord]; apply sumShape_congr; intro k _; simp [ordOps, Ops.sq, W]; ring
+  have e_st : normStats (ordOps sqrt eps) ms g w n = (W.mu, sqrt (W.B / W.n)) := by
+    unfold normStats
+    simp only [e_gw, e_g2w]
+    have emu : (ordOps sqrt eps).div (sumShape ms (fun k => W.w k * W.h k)) n = W.mu := rfl
+    rw [emu]
+    have evar : (ordOps sqrt eps).sub ((ordOps sqrt eps).div (sumShape ms (fun k => W.w k * (W.h k * W.h k))) n)
+        ((ordOps sqrt eps).sq W.mu) = W.B / W.n := by
+      have := W.var_formula_h hnn
+      simp only [ordOps, Ops.sq]
+      rw [← this]; unfold Win.mu; rw [hWn]; ring
+    rw [evar, max0_of_nonneg sqrt eps _ hBn]
+    rfl
+  set σ := sqrt (W.B / W.n) with hσdef
+  have hσσ : σ * σ = W.B / W.n := hs.sq _ hBn
+  have hσpos : 0 < σ := by
+    rcases (hs.nonneg (W.B / W.n)).lt_or_eq with h | h
+    · exact h
+    · exfalso
+      have hz : σ = 0 := by rw [hσdef]; exact h.symm
+      have : W.B / W.n = 0 := by rw [← hσσ, hz]; ring
+      rcases div_eq_zero_iff.mp this with h' | h'
+      · rw [h'] at hvar; exact lt_irrefl _ hvar
+      · exact hnn h'
+  have hσne : σ ≠ 0 := ne_of_gt hσpos
+  -- the standardised template at box voxels
+  have hgh : ∀ x, gh x = (g x - W.mu) / σ * w x := by
+    intro x
+    show normApply (ordOps sqrt eps) (normStats (ordOps sqrt eps) ms g w n) (g x) (w x) = _
+    rw [e_st]
+    simp [normApply, ordOps]
+  -- its mean under the mask is 0
+  have hmean : sumShape ms (fun k => gh (natsToInts k) * w (natsToInts k)) = 0 := by
+    have e : (fun k => gh (natsToInts k) * w (natsToInts k)) = fun k => (1 / σ) * (W.w k * (W.h k - W.mu)) := by
+      funext k
+      rw [hgh, mul_assoc, hbin (natsToInts k)]
+      simp only [W]
+      ring
+    rw [e, sumShape_mul_left, W.centered_sum_zero hnn]; ring
+  -- its second moment under the mask is n
+  have hsq : sumShape ms (fun k => (gh (natsToInts k) * gh (natsToInts k)) * w (natsToInts k)) = W.n := by
+    have e : (fun k => (gh (natsToInts k) * gh (natsToInts k)) * w (natsToInts k))
+        = fun k => (1 / (σ * σ)) * (W.w k * ((W.h k - W.mu) * (W.h k - W.mu))) := by
+      funext k
+      rw [hgh]
+      have hb := hbin (natsToInts k)
+      have hb3 : w (natsToInts k) * w (natsToInts k) * w (natsToInts k) = w (natsToInts k) := by rw [hb, hb]
+      have r : ((g (natsToInts k) - W.mu) / σ * w (natsToInts k) * ((g (natsToInts k) - W.mu) / σ * w (natsToInts k))) * w (natsToInts k)
+          = ((g (natsToInts k) - W.mu) / σ) * ((g (natsToInts k) - W.mu) / σ) * (w (natsToInts k) * w (natsToInts k) * w (natsToInts k)) := by ring
+      rw [r, hb3]
+      simp only [W]
+      field_simp
+    rw [e, sumShape_mul_left]
+    have : sumShape ms (fun k => W.w k * ((W.h k - W.mu) * (W.h k - W.mu))) = W.B := rfl
+    rw [this, hσσ]
+    field_simp
+  constructor
+  · unfold normStats
+    have a1 : boxSum (ordOps sqrt eps) ms (fun k => (ordOps sqrt eps).mul (gh (natsToInts k)) (w (natsToInts k))) = 0 := by
+      rw [boxSum_ord]; exact hmean
+    have a2 : boxSum (ordOps sqrt eps) ms
+        (fun k => (ordOps sqrt eps).mul ((ordOps sqrt eps).sq (gh (natsToInts k))) (w (natsToInts k))) = W.n := by
+      rw [boxSum_ord]; exact hsq
+    simp only [a1, a2]
+    have d0 : (ordOps sqrt eps).div 0 n = 0 := by simp [ordOps]
+    have d1 : (ordOps sqrt eps).div W.n n = 1 := by
+      show W.n / n = 1
+      rw [hWn]; exact div_self (ne_of_gt hn)
+    rw [d0, d1]
+    have v : (ordOps sqrt eps).sub 1 ((ordOps sqrt eps).sq 0) = 1 := by simp [ordOps, Ops.sq]
+    rw [v, max0_of_nonneg sqrt eps 1 (by norm_num)]
+    show ((0:α), sqrt 1) = (0, 1)
+    rw [sqrt_one sqrt hs]
+  · funext x
+    show normApply (ordOps sqrt eps) (0, 1) (gh x) (w x) = gh x
+    simp only [normApply, ordOps, sub_zero, div_one]
+    rw [hgh, mul_assoc, hbin x]
+
+end idem
+end Pm.C01
